@@ -1,7 +1,7 @@
 (* Proofs/OutputBytes.v — the byte level of the JSON / SARIF renderings (C06): what click.echo(json.dumps(doc, indent=K))
    writes is pure ASCII (hence well-formed UTF-8 under every stdout encoding), and the specification's reader of the JSON
    grammar reads the document back from it, for every JSON value (every byte string as a str, every integer). *)
-From TL Require Import Lib.Base Model.OutputTypes Gen.OutputGen Model.Output Model.OutputBytes Proofs.OutputStr Proofs.OutputSan.
+From TL Require Import Lib.Base Model.OutputTypes Gen.OutputGen Model.Output Model.OutputBytes Proofs.OutputStr Proofs.OutputSan Proofs.OutputJson.
 From Coq Require Import ZArith Lia.
 Local Open Scope string_scope.
 
@@ -354,3 +354,212 @@ Proof. unfold stdout_of, dumps. now rewrite ascii_bytes_app, dumps_ascii. Qed.
 
 Theorem stdout_utf8 j : utf8_valid (stdout_of j) = true.
 Proof. apply ascii_bytes_utf8, stdout_ascii. Qed.
+
+(* ---------- the reader on what the model wrote ---------- *)
+Definition delim (X : string) : bool := match X with EmptyString => true | String a _ => negb (num_char a) end.
+Definition val_start (c : ascii) : bool :=
+  num_char c || Ascii.eqb c "n"%char || Ascii.eqb c "t"%char || Ascii.eqb c "f"%char || Ascii.eqb c dq
+  || Ascii.eqb c "["%char || Ascii.eqb c "{"%char.
+
+Lemma val_start_facts c : val_start c = true ->
+  is_ws c = false /\ Ascii.eqb c "]"%char = false /\ Ascii.eqb c "}"%char = false.
+Proof.
+  destruct c as [b0 b1 b2 b3 b4 b5 b6 b7]. destruct b0, b1, b2, b3, b4, b5, b6, b7; intros H; try discriminate H; repeat split.
+Qed.
+
+Lemma num_char_facts c : num_char c = true ->
+  Ascii.eqb c "n"%char = false /\ Ascii.eqb c "t"%char = false /\ Ascii.eqb c "f"%char = false /\ Ascii.eqb c dq = false
+  /\ Ascii.eqb c "["%char = false /\ Ascii.eqb c "{"%char = false.
+Proof.
+  destruct c as [b0 b1 b2 b3 b4 b5 b6 b7]. destruct b0, b1, b2, b3, b4, b5, b6, b7; intros H; try discriminate H; repeat split.
+Qed.
+
+Lemma span_num_app p X : all_num p = true -> delim X = true -> span_num (p ++ X) = (p, X).
+Proof.
+  intros Hp HX. induction p as [|a p IH].
+  - destruct X as [|x X]; [reflexivity|]. cbn [append span_num]. cbn [delim] in HX. apply negb_true_iff in HX. now rewrite HX.
+  - cbn [all_num] in Hp. apply andb_true_iff in Hp as [H1 H2]. cbn [append span_num]. now rewrite H1, (IH H2).
+Qed.
+
+Lemma read_number_show z X : delim X = true -> read_number (show_Z z ++ X) = Some (JNum z, X).
+Proof.
+  intros HX. unfold read_number. rewrite span_num_app by (exact HX || apply show_Z_all_num).
+  now rewrite read_int_show, String.eqb_refl.
+Qed.
+
+Lemma skip_ws_start c t : is_ws c = false -> skip_ws (String c t) = String c t.
+Proof. intros H. cbn [skip_ws]. now rewrite H. Qed.
+
+Lemma skip_ws_spaces n Y : skip_ws (spaces n ++ Y) = skip_ws Y.
+Proof. induction n as [|n IH]; [reflexivity|]. cbn [spaces append skip_ws]. change (is_ws sp) with true. exact IH. Qed.
+
+Lemma skip_ws_ind lvl Y : skip_ws (ind lvl ++ Y) = skip_ws Y.
+Proof. unfold ind. cbn [append skip_ws]. change (is_ws nl) with true. apply skip_ws_spaces. Qed.
+
+Lemma delim_ind lvl Y : delim (ind lvl ++ Y) = true.
+Proof. reflexivity. Qed.
+
+Lemma dumps_head lvl j : exists c t, dumps_at lvl j = String c t /\ val_start c = true.
+Proof.
+  destruct j as [|b|z|s|l|l].
+  - eexists; eexists; split; reflexivity.
+  - destruct b; eexists; eexists; split; reflexivity.
+  - destruct (show_Z_head z) as (c & t & E & Hc). exists c, t. split; [exact E|]. unfold val_start. now rewrite Hc.
+  - eexists; eexists; split; reflexivity.
+  - destruct l as [|x r]; [eexists; eexists; split; reflexivity|]. rewrite dumps_arr. eexists; eexists; split; reflexivity.
+  - destruct l as [|[k x] r]; [eexists; eexists; split; reflexivity|]. rewrite dumps_obj. eexists; eexists; split; reflexivity.
+Qed.
+
+Lemma skip_ws_dumps lvl j Y : skip_ws (dumps_at lvl j ++ Y) = dumps_at lvl j ++ Y.
+Proof.
+  destruct (dumps_head lvl j) as (c & t & E & Hc). rewrite E. cbn [append]. apply skip_ws_start. now apply val_start_facts in Hc.
+Qed.
+
+(* fuel: one unit per value and per list cell *)
+Fixpoint jsize (j : json) : nat :=
+  match j with
+  | JArr l => S ((fix es (l : list json) : nat := match l with [] => 0 | x :: r => S (jsize x + es r) end) l)
+  | JObj l => S ((fix ms (l : list (string * json)) : nat := match l with [] => 0 | (_, x) :: r => S (jsize x + ms r) end) l)
+  | _ => 1
+  end.
+Fixpoint esize (l : list json) : nat := match l with [] => 0 | x :: r => S (jsize x + esize r) end.
+Fixpoint msize (l : list (string * json)) : nat := match l with [] => 0 | (_, x) :: r => S (jsize x + msize r) end.
+Lemma jsize_arr l : jsize (JArr l) = S (esize l).
+Proof. reflexivity. Qed.
+Lemma jsize_obj l : jsize (JObj l) = S (msize l).
+Proof. reflexivity. Qed.
+
+Definition reads_back (y : json) : Prop :=
+  forall lvl X fuel, delim X = true -> (jsize y <= fuel)%nat -> parse_val fuel (dumps_at lvl y ++ X) = Some (y, X).
+
+Lemma parse_elems_ok lvl X : forall l x fuel, reads_back x -> Forall reads_back l -> (esize (x :: l) <= fuel)%nat ->
+  parse_elems fuel (dumps_at (S lvl) x ++ atail lvl l ++ ind lvl ++ String "]"%char X) = Some (x :: l, X).
+Proof.
+  induction l as [|y l IH]; intros x fuel Hx Hl Hf; cbn [esize] in Hf; (destruct fuel as [|f]; [lia|]); cbn [parse_elems].
+  - cbn [atail append]. rewrite Hx by (apply delim_ind || lia). rewrite skip_ws_ind, skip_ws_start by reflexivity.
+    change (Ascii.eqb "]"%char ","%char) with false. change (Ascii.eqb "]"%char "]"%char) with true. reflexivity.
+  - inversion Hl as [|? ? Hy Hl']; subst. cbn [atail]. change json_dumps_item_sep with ",". cbn [append].
+    rewrite Hx by (reflexivity || lia). rewrite skip_ws_start by reflexivity.
+    change (Ascii.eqb ","%char ","%char) with true. cbv iota.
+    rewrite !OutputStr.app_assoc. rewrite skip_ws_ind, skip_ws_dumps.
+    rewrite (IH y f Hy Hl'); [reflexivity|]. cbn [esize]. lia.
+Qed.
+
+Lemma parse_members_ok lvl X : forall l k x fuel, reads_back x -> Forall (fun kv => reads_back (snd kv)) l ->
+  (msize ((k, x) :: l) <= fuel)%nat ->
+  parse_members fuel (json_quote k ++ json_dumps_key_sep ++ dumps_at (S lvl) x ++ mtail lvl l ++ ind lvl ++ String "}"%char X)
+  = Some ((k, x) :: l, X).
+Proof.
+  induction l as [|[k' y] l IH]; intros k x fuel Hx Hl Hf; cbn [msize] in Hf; (destruct fuel as [|f]; [lia|]).
+  - match goal with |- parse_members _ (json_quote k ++ ?R) = _ => destruct (json_quote_read k R) as (r0 & E & Hr) end.
+    rewrite E. cbn [parse_members]. change (Ascii.eqb dq dq) with true. cbv iota. rewrite Hr.
+    change json_dumps_key_sep with ": ". cbn [append]. rewrite skip_ws_start by reflexivity. cbn [expect].
+    change (Ascii.eqb ":"%char ":"%char) with true. cbv iota. cbn [skip_ws]. change (is_ws " "%char) with true. cbv iota.
+    rewrite skip_ws_dumps. cbn [mtail append]. rewrite Hx by (apply delim_ind || lia). rewrite skip_ws_ind, skip_ws_start by reflexivity.
+    change (Ascii.eqb "}"%char ","%char) with false. change (Ascii.eqb "}"%char "}"%char) with true. reflexivity.
+  - inversion Hl as [|? ? Hy Hl']; subst. cbn [snd] in Hy.
+    match goal with |- parse_members _ (json_quote k ++ ?R) = _ => destruct (json_quote_read k R) as (r0 & E & Hr) end.
+    rewrite E. cbn [parse_members]. change (Ascii.eqb dq dq) with true. cbv iota. rewrite Hr.
+    change json_dumps_key_sep with ": ". cbn [append]. rewrite skip_ws_start by reflexivity. cbn [expect].
+    change (Ascii.eqb ":"%char ":"%char) with true. cbv iota. cbn [skip_ws]. change (is_ws " "%char) with true. cbv iota.
+    rewrite skip_ws_dumps. cbn [mtail]. change json_dumps_item_sep with ",". change json_dumps_key_sep with ": ". cbn [append].
+    rewrite Hx by (reflexivity || lia). rewrite skip_ws_start by reflexivity.
+    change (Ascii.eqb ","%char ","%char) with true. cbv iota.
+    rewrite !OutputStr.app_assoc. rewrite skip_ws_ind.
+    destruct (json_quote_read k' EmptyString) as (rq & Eq & _). rewrite OutputStr.app_nil_r in Eq.
+    rewrite Eq at 1. cbn [append]. rewrite skip_ws_start by reflexivity.
+    change (String dq (rq ++ ?Z)) with (String dq rq ++ Z). rewrite <- Eq.
+    change (String ":"%char (String " "%char ?Z)) with (json_dumps_key_sep ++ Z).
+    rewrite !OutputStr.app_assoc. rewrite (IH k' y f Hy Hl'); [reflexivity|]. cbn [msize]. lia.
+Qed.
+
+(* the reader reads back every document the model writes, at every nesting level, whatever follows it *)
+Theorem parse_dumps j : reads_back j.
+Proof.
+  induction j using json_ind'; intros lvl X fuel HX Hf; (destruct fuel as [|f]; [cbn in Hf; lia|]).
+  - reflexivity.
+  - destruct b; reflexivity.
+  - destruct (show_Z_head z) as (c & t & E & Hc). cbn [dumps_at]. rewrite E. cbn [append parse_val].
+    destruct (num_char_facts c Hc) as (F1 & F2 & F3 & F4 & F5 & F6). rewrite F1, F2, F3, F4, F5, F6.
+    change (String c (t ++ X)) with (String c t ++ X). rewrite <- E. now apply read_number_show.
+  - destruct (json_quote_read s X) as (r & E & Hr). cbn [dumps_at]. rewrite E. cbn [parse_val].
+    change (Ascii.eqb dq "n"%char) with false. change (Ascii.eqb dq "t"%char) with false. change (Ascii.eqb dq "f"%char) with false.
+    change (Ascii.eqb dq dq) with true. cbv iota. now rewrite Hr.
+  - destruct l as [|x r]; [reflexivity|]. rewrite dumps_arr. rewrite jsize_arr in Hf. inversion H as [|? ? Hx Hr]; subst.
+    cbn [append parse_val].
+    change (Ascii.eqb "["%char "n"%char) with false. change (Ascii.eqb "["%char "t"%char) with false. change (Ascii.eqb "["%char "f"%char) with false.
+    change (Ascii.eqb "["%char dq) with false. change (Ascii.eqb "["%char "["%char) with true. cbv iota.
+    rewrite !OutputStr.app_assoc. cbn [append]. rewrite skip_ws_ind, skip_ws_dumps.
+    destruct (dumps_head (S lvl) x) as (c & t & E & Hc). destruct (val_start_facts c Hc) as (_ & G1 & _).
+    rewrite E. cbn [append]. rewrite G1.
+    match goal with |- context [String c (t ++ ?Z)] => change (String c (t ++ Z)) with (String c t ++ Z) end. rewrite <- E.
+    rewrite (parse_elems_ok lvl X r x f Hx Hr); [reflexivity|lia].
+  - destruct l as [|[k x] r]; [reflexivity|]. rewrite dumps_obj. rewrite jsize_obj in Hf. inversion H as [|? ? Hx Hr]; subst. cbn [snd] in Hx.
+    cbn [append parse_val].
+    change (Ascii.eqb "{"%char "n"%char) with false. change (Ascii.eqb "{"%char "t"%char) with false. change (Ascii.eqb "{"%char "f"%char) with false.
+    change (Ascii.eqb "{"%char dq) with false. change (Ascii.eqb "{"%char "["%char) with false. change (Ascii.eqb "{"%char "{"%char) with true. cbv iota.
+    rewrite !OutputStr.app_assoc. cbn [append]. rewrite skip_ws_ind.
+    destruct (json_quote_read k EmptyString) as (rq & Eq & _). rewrite OutputStr.app_nil_r in Eq.
+    rewrite Eq at 1. cbn [append]. rewrite skip_ws_start by reflexivity. change (Ascii.eqb dq "}"%char) with false. cbv iota.
+    change (String dq (rq ++ ?Z)) with (String dq rq ++ Z). rewrite <- Eq.
+    rewrite (parse_members_ok lvl X r k x f Hx Hr); [reflexivity|lia].
+Qed.
+
+(* ---------- enough fuel: the length of the text ---------- *)
+Lemma ind_len lvl : (1 <= String.length (ind lvl))%nat.
+Proof. unfold ind. cbn [String.length]. lia. Qed.
+
+Lemma jsize_le_length j : forall lvl, (jsize j <= String.length (dumps_at lvl j))%nat.
+Proof.
+  induction j using json_ind'; intros lvl.
+  - cbn. lia.
+  - destruct b; cbn; lia.
+  - destruct (show_Z_head z) as (c & t & E & _). cbn [dumps_at jsize]. rewrite E. cbn [String.length]. lia.
+  - cbn [dumps_at jsize]. unfold json_quote. cbn [String.length]. lia.
+  - destruct l as [|x r]; [cbn; lia|]. rewrite dumps_arr, jsize_arr. inversion H as [|? ? Hx Hr]; subst.
+    cbn [String.length esize]. rewrite !length_app. pose proof (ind_len (S lvl)). pose proof (ind_len lvl). specialize (Hx (S lvl)).
+    assert (T : (esize r <= String.length (atail lvl r))%nat).
+    { clear Hx H. induction Hr as [|y r Hy _ IH]; [cbn; lia|]. cbn [atail esize]. rewrite !length_app.
+      pose proof (ind_len (S lvl)). specialize (Hy (S lvl)). lia. }
+    lia.
+  - destruct l as [|[k x] r]; [cbn; lia|]. rewrite dumps_obj, jsize_obj. inversion H as [|? ? Hx Hr]; subst. cbn [snd] in Hx.
+    cbn [String.length msize]. rewrite !length_app. pose proof (ind_len (S lvl)). pose proof (ind_len lvl). specialize (Hx (S lvl)).
+    assert (T : (msize r <= String.length (mtail lvl r))%nat).
+    { clear Hx H. induction Hr as [|[k' y] r Hy _ IH]; [cbn; lia|]. cbn [mtail msize snd] in *. rewrite !length_app.
+      pose proof (ind_len (S lvl)). specialize (Hy (S lvl)). lia. }
+    lia.
+Qed.
+
+(* what click.echo(json.dumps(doc, indent=K)) writes is a JSON text, and it denotes the document *)
+Theorem loads_stdout j : loads (stdout_of j) = Some j.
+Proof.
+  unfold loads, stdout_of, dumps. rewrite skip_ws_dumps.
+  rewrite (parse_dumps j 0%nat nls); [reflexivity|reflexivity|].
+  rewrite length_app. pose proof (jsize_le_length j 0%nat). lia.
+Qed.
+
+Theorem loads_dumps j : loads (dumps j) = Some j.
+Proof.
+  unfold loads, dumps. rewrite <- (OutputStr.app_nil_r (dumps_at 0 j)). rewrite skip_ws_dumps.
+  rewrite (parse_dumps j 0%nat EmptyString); [reflexivity|reflexivity|].
+  rewrite OutputStr.app_nil_r. pose proof (jsize_le_length j 0%nat). lia.
+Qed.
+
+(* the serialisation is injective: two documents with the same stdout are the same document *)
+Theorem stdout_injective j1 j2 : stdout_of j1 = stdout_of j2 -> j1 = j2.
+Proof. intros H. pose proof (loads_stdout j1) as H1. rewrite H, loads_stdout in H1. now injection H1. Qed.
+
+(* ---------- from the bytes of stdout to the violations ---------- *)
+Definition wellformed_json_text (out : string) : bool :=
+  utf8_valid out && match loads out with Some _ => true | None => false end.
+
+Theorem stdout_wellformed j : wellformed_json_text (stdout_of j) = true.
+Proof. unfold wellformed_json_text. now rewrite stdout_utf8, loads_stdout. Qed.
+
+Theorem json_bytes_roundtrip vs :
+  bind (loads (stdout_of (render_json vs))) decode_json = Some (map san_core vs, Z.of_nat (List.length vs)).
+Proof. rewrite loads_stdout. cbn [bind]. apply json_roundtrip. Qed.
+
+Theorem sarif_bytes_roundtrip q ver vs :
+  bind (loads (stdout_of (render_sarif q ver vs))) decode_sarif = Some (map san_core vs).
+Proof. rewrite loads_stdout. cbn [bind]. apply sarif_roundtrip_exact. Qed.
